@@ -96,7 +96,7 @@ def rand_universe(rng):
             r = D.mk(i, v, name=rng.choice([1, 2, 3]))
             if D.TYPES[t] in ("attack-pattern", "campaign", "malware", "threat-actor", "x-unreg") and rng.random() < 0.6:
                 r["num"] = rng.choice([0, 1, 50, 100])
-            if t != D.T_FILE and rng.random() < 0.6:
+            if t != D.T_FILE and (rng.random() < 0.6 or t == D.T_IND20):
                 r["labels"] = [rng.choice([1, 2, 3]) for _ in range(rng.randint(1, 3))]
             if t != D.T_FILE and rng.random() < 0.5:
                 r["refs"] = [{"s": rng.choice([1, 2, 3]), "v": rng.choice([1, 2, 3, 4, 5])} for _ in range(rng.randint(1, 2))]
